@@ -7,3 +7,4 @@
 (declare-fun relPath (Str Str) Str)      ; its result when it does
 (declare-fun encOK (Iface) Bool)          ; objectpath.Encoder.For(obj) succeeds
 (declare-fun encPath (Iface) Str)         ; its result when it does
+(declare-fun namedFullString (Int) Str)  ; (*types.Named).String(): the import-path-qualified name (assumed injective on distinct named types)
